@@ -6,6 +6,7 @@ import (
 	"strconv"
 	"strings"
 	"testing"
+	"time"
 
 	"github.com/pion/dtls/v3/zzverif/run"
 	"github.com/pion/dtls/v3/zzverif/world"
@@ -94,8 +95,7 @@ func quickRedundant(t *testing.T, p *world.PKI, sp spec) bool {
 
 var redundantMemo = map[string]bool{}
 
-func runSpec(t *testing.T, p *world.PKI, sp spec) run.Outcome {
-	var o run.Outcome
+func runSpec(t *testing.T, p *world.PKI, sp spec) (o run.Outcome) {
 	if !sp.thorough && sp.k > 0 {
 		mk := fmt.Sprintf("%s/%v/%d", sp.v.Name, sp.victimIsClient, sp.k)
 		red, ok := redundantMemo[mk]
@@ -110,6 +110,12 @@ func runSpec(t *testing.T, p *world.PKI, sp spec) run.Outcome {
 		}
 	}
 	var res *result
+	if os.Getenv("C08_TIMING") != "" {
+		t0 := time.Now()
+		defer func() {
+			fmt.Fprintf(os.Stderr, "TIMING %s %.3fs injected=%d assoc=%d\n", sp.id(), time.Since(t0).Seconds(), o.Evals, o.Counters["associations_built"])
+		}()
+	}
 	if sp.fam == "probe" {
 		res = runIsolated(sp)
 	} else {
